@@ -31,8 +31,9 @@ for t in "$@"; do
   if [ "$t" = "driver" ]; then want_driver=1; targets+=("extract/Extract.vo"); else targets+=("$t"); fi
 done
 [ $want_driver -eq 1 ] && [ ! -f picomodel.ml ] && rm -f extract/Extract.vo
-timeout ${VERIF_MAKE_TIMEOUT:-1500} make -Otarget -j${VERIF_JOBS:-16} -k "${targets[@]}" 2>&1 | grep -v 'extraction-reserved-identifier\|reserved for\|^the extraction\|characters 0-' 
+timeout ${VERIF_MAKE_TIMEOUT:-1500} make -Otarget -j${VERIF_JOBS:-16} -k "${targets[@]}" 2>&1 | tee "$V/build/log/make.out" | grep -v 'extraction-reserved-identifier\|reserved for\|^the extraction\|characters 0-' 
 mrc=${PIPESTATUS[0]}
+python3 "$V/tools/split_assumptions.py" "$V/build/log/make.out" 2>/dev/null
 if [ $want_driver -eq 1 ] && [ -f picomodel.ml ]; then
   mkdir -p ocaml
   if [ ! -x ocaml/picomodel ] || [ picomodel.ml -nt ocaml/picomodel ] || [ "$V/ocaml/driver.ml" -nt ocaml/picomodel ]; then
